@@ -241,6 +241,8 @@ def worker(inst):
     _install_scalar_models()
     if inst[0] == "fp":
         return fp_kernel(inst)
+    if inst[0] == "fpshift":
+        return fp_shift(inst)
     ob = build_obligation(inst)
     tier = os.environ.get("VERIF_TIER", "quick")
     out = decide(str(inst), ob, timeout_ms=8000 if tier == "quick" else 60000, twin=True)
@@ -251,8 +253,9 @@ def worker(inst):
 # FloatingPoint kernels: NaN-freedom over ALL of float64, formula regenerated from the current source
 # ---------------------------------------------------------------------------------------------------
 
-def _fp_translate(fn_name):
-    """AST -> z3 FP term of the one-line array kernels `_safediv`, `_safesub`, `_reciprocal`"""
+def _fp_translate(fn_name, local=None):
+    """AST -> z3 FP term of the one-line array kernels `_safediv`, `_safesub`, `_reciprocal`; with `local`, the
+    term of that local variable (the stabilising `shift` of the logaddexp kernels) instead of the return value"""
     import ast
     import inspect
     import z3
@@ -295,6 +298,12 @@ def _fp_translate(fn_name):
                 return FMAX
             if n.attr == "min":
                 return FMIN
+            if n.attr in ("tiny", "smallest_normal"):
+                return z3.FPVal(2.0 ** -1022, F)
+            if n.attr == "eps":
+                return z3.FPVal(2.0 ** -52, F)
+            if n.attr == "smallest_subnormal":
+                return z3.FPVal(5e-324, F)
         if isinstance(n, ast.Call):
             f = n.func
             name = f.attr if isinstance(f, ast.Attribute) else f.id
@@ -310,6 +319,14 @@ def _fp_translate(fn_name):
                 return x
             if name == "reciprocal":
                 return z3.fpDiv(rm, z3.FPVal(1.0, F), ev(n.args[0]))
+            if name == "detach" and len(n.args) == 1:
+                return ev(n.args[0])
+            if name in ("max", "maximum") and len(n.args) == 2 and not n.keywords:
+                a, b = ev(n.args[0]), ev(n.args[1])
+                return z3.If(z3.fpIsNaN(a), a, z3.If(z3.fpIsNaN(b), b, z3.If(z3.fpGT(b, a), b, a)))
+            if name in ("min", "minimum") and len(n.args) == 2 and not n.keywords:
+                a, b = ev(n.args[0]), ev(n.args[1])
+                return z3.If(z3.fpIsNaN(a), a, z3.If(z3.fpIsNaN(b), b, z3.If(z3.fpLT(b, a), b, a)))
         raise NotImplementedError(ast.dump(n))
 
     result = None
@@ -320,8 +337,18 @@ def _fp_translate(fn_name):
             if st.targets[0].id == "finfo":
                 continue
             env[st.targets[0].id] = ev(st.value)
+            if local is not None and st.targets[0].id == local:
+                # the same prefix of the REAL source, compiled in the module's own namespace, for validation / replay
+                mod = ast.Module(body=[ast.FunctionDef(name="_prefix", args=fdef.args, decorator_list=[], type_params=[],
+                                 body=fdef.body[:fdef.body.index(st) + 1] + [ast.Return(value=ast.Name(id=local, ctx=ast.Load()))])], type_ignores=[])
+                ast.fix_missing_locations(mod)
+                ns = {}
+                exec(compile(mod, "<prefix of %s>" % fn_name, "exec"), fn.__globals__, ns)
+                return params, env[local], src, ns["_prefix"], fdef.body[fdef.body.index(st) + 1:]
         elif isinstance(st, ast.Return):
             result = ev(st.value)
+    if local is not None:
+        raise NotImplementedError("no local %r" % local)
     if result is None:
         raise NotImplementedError("no return")
     return params, result, src
@@ -407,6 +434,95 @@ def fp_kernel(inst):
     return out
 
 
+def fp_shift(inst):
+    """stability contract of the logaddexp kernels over ALL of float64 (x, y in [-inf, +inf)):  the kernel has the
+    shape  log(exp(x - shift) + exp(y - shift)) + shift  (checked on the AST), shift is finite, no exp argument
+    overflows, and the larger exp argument stays within W of 0 unless both operands are -inf - which is what makes
+    the float result the exact limit at -inf and near the float range boundary (the exact-arithmetic agreement with
+    the specification is decided separately on the SV algebra)."""
+    import ast
+    import time
+    import numpy as np
+    import z3
+    import funsor.ops.array as A
+    _, fn_name, scalar_first = inst
+    W = 100.0
+    out = dict(status="ok", label=str(inst), detail="", obligations=1, discharged=0, nontrivial=True, paths=1, cells=1)
+    try:
+        params, shift, src, prefix, rest = _fp_translate(fn_name, local="shift")
+        # the remaining statement must be exactly the stabilised form
+        ok_shape = len(rest) == 1 and isinstance(rest[0], ast.Return) and \
+            ast.unparse(rest[0].value).replace(" ", "") == "np.log(np.exp(x-shift)+np.exp(y-shift))+shift"
+        if not ok_shape:
+            raise NotImplementedError("kernel is not log(exp(x - shift) + exp(y - shift)) + shift: %s" % ast.unparse(rest[0] if rest else ast.Pass()))
+    except Exception as e:  # noqa
+        out.update(status="inconclusive", detail="FP translator cannot encode current source of %s: %s" % (fn_name, e))
+        return out
+    fn = getattr(A, fn_name)
+    F = z3.Float64()
+    rm = z3.RNE()
+    x, y = params["x"], params["y"]
+
+    def call(f, a, b):
+        with np.errstate(all="ignore"):
+            return f(float(a) if scalar_first else np.array(a), np.array(b))
+    grid = [0.0, -0.0, 1.0, -1.0, 0.25, -745.5, -800.0, 709.0, 1e-310, 5e-324, 1e308, -1e308, -1.7976931348623157e308, -math.inf, 2.0 ** -1022]
+    checked = 0
+    for a, b in itertools.product(grid, repeat=2):
+        real = float(call(prefix, a, b))
+        sym = z3.simplify(z3.substitute(shift, (x, z3.FPVal(a, F)), (y, z3.FPVal(b, F))))
+        if not z3.is_fp_value(sym):
+            continue
+        checked += 1
+        symv = _fpval(sym)
+        if not ((math.isnan(symv) and math.isnan(real)) or symv == real):
+            out.update(status="gap", detail="FP translation of shift in %s disagrees with the real prefix at %s: %r vs %r" % (fn_name, (a, b), symv, real))
+            return out
+    out["translation_validated_points"] = checked
+    cons = []
+    for v in (x, y):
+        cons += [z3.Not(z3.fpIsNaN(v)), z3.Not(z3.And(z3.fpIsInf(v), z3.fpIsPositive(v)))]
+    ax, ay = z3.fpSub(rm, x, shift), z3.fpSub(rm, y, shift)
+    zero, w = z3.FPVal(0.0, F), z3.FPVal(W, F)
+    both_ninf = z3.And(z3.fpIsInf(x), z3.fpIsInf(y))
+    big = z3.If(z3.fpGT(ay, ax), ay, ax)
+    good = z3.And(z3.Not(z3.fpIsNaN(shift)), z3.Not(z3.fpIsInf(shift)), z3.Not(z3.fpIsNaN(ax)), z3.Not(z3.fpIsNaN(ay)),
+                  z3.fpLEQ(ax, w), z3.fpLEQ(ay, w), z3.Or(both_ninf, z3.fpGEQ(big, z3.fpNeg(w))))
+    sol = z3.Solver()
+    sol.set("timeout", 300000)
+    sol.add(*cons)
+    sol.add(z3.Not(good))
+    from symx import engine
+    t1 = time.time()
+    r = sol.check()
+    engine.STATS.queries += 1
+    engine.STATS.solver_s += time.time() - t1
+    out["solver_s"] = round(time.time() - t1, 2)
+    if r == z3.unsat:
+        engine.STATS.unsat += 1
+        out["discharged"] = 1
+        s2 = z3.Solver()      # reachability twin: with +inf allowed the contract must be violable
+        s2.set("timeout", 60000)
+        s2.add(z3.Not(z3.fpIsNaN(x)), z3.Not(z3.fpIsNaN(y)), z3.Not(good))
+        out["twin"] = str(s2.check())
+        return out
+    if r == z3.sat:
+        m = sol.model()
+        a, b = _fpval(m.eval(x, model_completion=True)), _fpval(m.eval(y, model_completion=True))
+        real = float(call(fn, a, b))
+        hi, lo = max(a, b), min(a, b)
+        want = hi if lo == -math.inf else hi + math.log1p(math.exp(lo - hi))
+        bad = math.isnan(real) or (real != want and not (abs(real - want) <= 1e-9 * max(1.0, abs(want))))
+        if bad:
+            out.update(status="violation", kind="value", detail="%s(%r, %r) = %r, exact limit %r (shift %r breaks the stability contract)" % (
+                fn_name, a, b, real, want, float(call(prefix, a, b))), replay=dict(fn=fn_name, args=[repr(a), repr(b)]))
+        else:
+            out.update(status="inconclusive", detail="stability contract fails at %r but the real kernel is still accurate there" % ((a, b),))
+        return out
+    out.update(status="inconclusive", detail="FP query unknown/timeout")
+    return out
+
+
 def _fpval(v):
     import struct
     import z3
@@ -487,6 +603,7 @@ def instances(tier):
         out.append(("edge", "logaddexp", a, b, want))
         out.append(("edge", "logaddexp", np_arr(a), np_arr(b), want))
     out += [("fp", "_safesub", "safesub"), ("fp", "_reciprocal", "reciprocal"), ("fp", "_safediv", "safediv")]
+    out += [("fpshift", "_safe_logaddexp_tensor_tensor", False), ("fpshift", "_safe_logaddexp_number_tensor", True)]
     return out, skipped
 
 
